@@ -167,7 +167,7 @@ def build_case(r, art, k, stream):
 
 
 CONTROL = ("WHILE", "IF", "CALL_ONCE", "CALL")
-W_FAMS = ["mixed_cpu", "multi_custom", "ew_dag", "diamond", "multi_input", "mixed_cpu", "conv_chain", "single", "lstm", "cpu_fan"]
+W_FAMS = ["mixed_cpu", "multi_custom", "ew_dag", "diamond", "multi_input", "mixed_cpu", "conv_chain", "single", "lstm", "cpu_fan", "unsupported:reshape_requant", "unsupported:squeeze_requant", "unsupported:reshape_5d"]
 
 
 def build_inference_case(r, art):
